@@ -149,3 +149,71 @@ def checked_programs(kmain=3, ksub=2, check_names=("none", "size==2", "index==0"
                             + " checks=" + ",".join(cks) + " conds=" + ",".join(cds))
                     yield name, render(m, s, [CHECKS[c] for c in cks], cond)
                 n += 1
+
+
+# ---------------------------------------------------------------------------------------------- meaning-preserving rewrites (C15)
+
+PAD = ["int 9", "pop"]
+
+
+def rewrite(src, variant):
+    """a meaning-preserving rewriting of a generated program (text level).  Block structure is unchanged: blocks correspond by index.
+
+    variant 'layout'  : labels renamed, comments, blank lines, indentation, trailing comments
+    variant 'hex'     : every integer literal in hex, labels renamed
+    variant 'octal'   : every integer literal in octal (leading 0)
+    variant 'pushint' : `int c` written `pushint c`
+    variant 'intc'    : constants moved to an intcblock at the top of the entry block, `int c` written intc_k / intc k
+    variant 'padding' : stack-neutral `int 9; pop` at statement boundaries (block start, before the block's terminator statement)
+    variant 'all'     : layout + hex + padding + pushint for every second constant
+    """
+    lines = src.strip("\n").split("\n")
+    labels = sorted({l[:-1] for l in lines if l.endswith(":")})
+    ren = {l: f"L_{i}_{l[::-1]}" for i, l in enumerate(labels)} if variant in ("layout", "hex", "all") else {}
+
+    def relabel(l):
+        if l.endswith(":") and l[:-1] in ren:
+            return ren[l[:-1]] + ":"
+        t = l.split()
+        if t and t[0] in ("b", "bz", "bnz", "callsub") and t[1] in ren:
+            return f"{t[0]} {ren[t[1]]}"
+        return l
+
+    consts = []
+    for l in lines:
+        t = l.split()
+        if len(t) == 2 and t[0] == "int" and t[1].isdigit() and int(t[1]) not in consts:
+            consts.append(int(t[1]))
+    out = []
+    k = 0
+    for i, l in enumerate(lines):
+        l = relabel(l)
+        t = l.split()
+        is_int = len(t) == 2 and t[0] == "int" and t[1].isdigit()
+        if is_int:
+            c = int(t[1])
+            k += 1
+            if variant == "hex" or (variant == "all" and k % 2 == 0):
+                l = f"int {hex(c)}"
+            elif variant == "octal":
+                l = f"int 0{oct(c)[2:]}" if c else "int 00"
+            elif variant == "pushint" or (variant == "all" and k % 2 == 1):
+                l = f"pushint {c}"
+            elif variant == "intc":
+                j = consts.index(c)
+                l = f"intc_{j}" if j < 4 else f"intc {j}"
+        if variant in ("layout", "all") and not l.startswith("#pragma"):
+            if i % 3 == 0:
+                out.append("")
+            if i % 4 == 1:
+                out.append("// a comment line")
+            l = ("    " if i % 2 else "\t") + l + (" // trailing comment" if i % 5 == 2 else "")
+        bare = l.split("//")[0].split()
+        if variant in ("padding", "all") and bare and bare[0] in ("b", "callsub", "retsub", "err"):
+            out += PAD          # before a one-line terminator statement
+        out.append(l)
+        if variant in ("padding", "all") and (l.startswith("#pragma") or (bare and bare[0].endswith(":"))):
+            out += PAD          # at the start of a block
+        if l.startswith("#pragma") and variant == "intc" and consts:
+            out.append("intcblock " + " ".join(map(str, consts)))
+    return "\n".join(out) + "\n"
